@@ -228,6 +228,14 @@ def func_table(m):
 def residual(m, eqs, env, der):
     """Reference residual: list of blocks; each block is (kind, [floats]) where
     kind 'seq' must match in order and 'bag' (for-loop block) as a multiset."""
+    try:
+        return _residual(m, eqs, env, der)
+    except OverflowError:
+        # exact integer arithmetic of the reference left the float range (3 ^ 2 ^ 11 ..): not a test point
+        raise X.Fragile("reference value out of float range")
+
+
+def _residual(m, eqs, env, der):
     funcs = func_table(m)
     blocks = []
 
